@@ -733,6 +733,8 @@ def gen_dtc(rng, n, nrec_max=6):
                           ('xrec', 'extended_data_record_number'), ('ms', 'memory_selection'), ('fg', 'functional_group_id')):
             if key in p:
                 kwargs[name] = p[key]
+        if 'dtc' in kwargs and rng.random() < 0.4:
+            kwargs['dtc'] = Dtc(kwargs['dtc'])          # the helper object the API accepts in place of the number (also on the reply side: echo comparisons, messages)
         mode = p.get('extmode')
         if mode == 'arg':
             kwargs['extended_data_size'] = ext
@@ -741,10 +743,15 @@ def gen_dtc(rng, n, nrec_max=6):
         elif mode == 'dict':
             cfgd['extended_data_size'] = {dtcid: ext, 0x777777: 3}
         elif mode == 'dictarg':
-            if rng.random() < 0.5:
+            r_ = rng.random()
+            if r_ < 0.4:
                 kwargs['extended_data_size'] = p['extdict']
-            else:
+            elif r_ < 0.7:
                 cfgd['extended_data_size'] = p['extdict']
+            else:
+                # given both ways with other sizes in the configuration: the argument of the call is the one that counts
+                kwargs['extended_data_size'] = p['extdict']
+                cfgd['extended_data_size'] = {k_: v_ + 1 + (k_ % 3) for k_, v_ in p['extdict'].items()}
         dline = 'dec e=dtc std=2020 tol=%s ign=%s k=%d cfg=%s def=x ext=%s sf=%d dtc=%s snap=%s xrec=%s ms=%s fg=%s' % (
             b01(tol), b01(ign), k, ','.join('%d:%d' % (d_, l_) for d_, l_ in snapdids.items()), extline if g in ('extdtc', 'extrec') else '-', sf,
             on(p.get('dtc')), on(p.get('snap')), on(p.get('xrec')), on(p.get('ms')), on(p.get('fg')))
